@@ -169,6 +169,32 @@ access(all) contract Slot {
     access(all) view fun occupied(): Bool { return self.slot != nil }
     init() { self.slot <- nil; self.shelf <- {} }
 }`},
+	{Name: "CI", Src: `
+access(all) contract interface CI {
+    access(all) event Recorded(amount: Int)
+    access(all) fun record(_ amount: Int): Int {
+        pre { amount > 0: "amount must be positive" }
+        post { emit Recorded(amount: amount) }
+    }
+}`},
+	{Name: "CImpl", Src: `
+import CI from 0x9
+access(all) contract CImpl: CI {
+    access(all) var total: Int
+    access(all) fun record(_ amount: Int): Int { self.total = self.total + amount; return self.total }
+    // no conformances: its same-named function has no conditions
+    access(all) struct Plain {
+        access(all) var n: Int
+        init() { self.n = 0 }
+        access(all) fun record(_ amount: Int): Int { self.n = self.n + amount; return self.n }
+    }
+    access(all) resource PlainR {
+        access(all) event ResourceDestroyed(uuid: UInt64 = self.uuid)
+        access(all) fun record(_ amount: Int): Int { return amount * 2 }
+    }
+    access(all) fun mkR(): @PlainR { return <- create PlainR() }
+    init() { self.total = 0 }
+}`},
 	{Name: "Inf", Src: `
 access(all) contract Inf {
     access(all) struct interface I1 { access(all) fun one(): Int }
@@ -759,6 +785,22 @@ var scenarios = []scenario{
 			{Kind: "script", Src: scnScript("import Inf from 0x9\n", "[AnyStruct]", `    let a = getAuthAccount<auth(Storage) &Account>(0x9)
     return [a.storage.type(at: /storage/scnInfXs)!.identifier, a.storage.type(at: /storage/scnInfD)!.identifier, a.storage.type(at: /storage/scnInfRs)!.identifier,
         [Inf.C(), Inf.B()], {1: Inf.A(), 2: Inf.B()}]`)},
+		}
+	}},
+	{"contract-interface-conditions", func(r *Rng) []scnStep {
+		a := 1 + r.Intn(50)
+		imp := impW + "import CImpl from 0x9\n"
+		return []scnStep{
+			{Kind: "tx", Src: scnTx(imp, fmt.Sprintf(`        let before = CImpl.total
+        log(CImpl.record(%d) - before)
+        var p = CImpl.Plain()
+        log(p.record(-5))
+        log(p.record(%d))
+        let pr <- CImpl.mkR()
+        log(pr.record(-3))
+        destroy pr`, a, a)), Expect: []string{fmt.Sprint(a), "-5", fmt.Sprint(a - 5), "-6"}},
+			{Kind: "script", Src: scnScript("import CImpl from 0x9\n", "Int", "    return CImpl.record(-1)"), Fails: "ConditionError"},
+			{Kind: "script", Src: scnScript("import CImpl from 0x9\n", "Int", "    var p = CImpl.Plain()\n    return p.record(-1)"), Expect: []string{}},
 		}
 	}},
 	{"resource-juggling", func(r *Rng) []scnStep {
